@@ -46,11 +46,20 @@ def _one_by_one_guard(fn: FunctionInfo, ret: ast.AST) -> Optional[str]:
     nd = cfg.node_of(ret)
     if nd is None:
         return None
+    pat = r"[\w\.]+\.(size\(-1\)|shape\[-1\]|size\(-2\)|shape\[-2\]) == 1"
     for d in cfg.dominators(nd.id):
         dn = cfg.nodes[d]
-        if dn.kind == "test" and cfg.branch_taken(d, nd.id) is True and _re.fullmatch(
-                r"[\w\.]+\.(size\(-1\)|shape\[-1\]|size\(-2\)|shape\[-2\]) == 1", norm(dn.ast)):
-            return norm(dn.ast)
+        if dn.kind != "test" or cfg.branch_taken(d, nd.id) is not True:
+            continue
+        t = dn.ast
+        if isinstance(t, ast.Name):
+            # a flag holding the test: is_scalar = evaluated_mat.size(-1) == 1
+            defs = [x.value for x in walk_body(fn) if isinstance(x, ast.Assign) and len(x.targets) == 1
+                    and isinstance(x.targets[0], ast.Name) and x.targets[0].id == t.id]
+            if len(defs) == 1:
+                t = defs[0]
+        if _re.fullmatch(pat, norm(t)):
+            return norm(t)
     return None
 
 
@@ -92,11 +101,13 @@ def rule_orientation(idx: ProgramIndex, rep: Report):
                     f"but {'upper' if want == U else 'lower'} was requested (L L^T vs R^T R are confused)", fn.loc(node)))
 
 
-def rule_spec_params(idx: ProgramIndex, rep: Report):
-    rep.rule("C06.S", "spec-bearing parameters are read or forwarded in every definition that takes them", floor=100)
+def rule_spec_params(idx: ProgramIndex, rep: Report, prop: str = PROP, rule: str = "C06.S", only=None, floor: int = 100):
+    rep.rule(rule, "spec-bearing parameters are read or forwarded in every definition that takes them", floor=floor)
     base = idx.operator_base()
     for c in idx.operator_classes():
         for mname, fn in c.methods.items():
+            if only is not None and not only(mname):
+                continue
             ps = [p for p in fn.all_param_names() if p in SPEC_PARAMS]
             if not ps:
                 continue
@@ -115,14 +126,17 @@ def rule_spec_params(idx: ProgramIndex, rep: Report):
             for p in ps:
                 sample = {"definition": f"{c.name}.{mname}", "parameter": p}
                 if p in used or only_raises:
-                    rep.ok("C06.S", sample)
+                    rep.ok(rule, sample)
                     continue
                 exc = DEAD_PARAM_EXCEPTIONS.get((c.name, mname, p))
+                if exc is None and p == "upper" and any(k.name == "DiagLinearOperator" for k in c.mro):
+                    # structural: a diagonal matrix is its own transpose - the orientation of a diagonal factor cannot matter
+                    exc = "a diagonal matrix has no orientation (class derives from DiagLinearOperator)"
                 if exc:
-                    rep.ok("C06.S", {**sample, "exception": exc})
+                    rep.ok(rule, {**sample, "exception": exc})
                     continue
-                rep.bad("C06.S", Finding(
-                    PROP, "C06.S", f"{c.name}.{mname}", f"parameter {p} is never read",
+                rep.bad(rule, Finding(
+                    prop, rule, f"{c.name}.{mname}", f"parameter {p} is never read",
                     f"{c.name}.{mname} takes `{p}`, which changes the specification of the result, but never reads or "
                     f"forwards it: every value of `{p}` gets the same answer", fn.loc()))
 
@@ -133,10 +147,27 @@ def _string_returns(fn: FunctionInfo) -> Set[str]:
     out = set()
     loop_vars: Dict[str, Set[str]] = {}
     assigned: Dict[str, Set[Optional[str]]] = {}
+    def table_display(it: ast.AST) -> Optional[ast.AST]:
+        """the tuple / list / set display a loop iterates: written in place, or a class-level / module-level constant"""
+        if isinstance(it, (ast.Tuple, ast.List, ast.Set)):
+            return it
+        nm = None
+        if isinstance(it, ast.Attribute) and isinstance(it.value, ast.Name) and it.value.id in ("self", "cls"):
+            nm = it.attr
+            for k in (fn.cls.mro if fn.cls is not None else []):
+                if nm in k.class_attrs and isinstance(k.class_attrs[nm], (ast.Tuple, ast.List, ast.Set)):
+                    return k.class_attrs[nm]
+        if isinstance(it, ast.Name):
+            gv = fn.module.globals_.get(it.id)
+            if isinstance(gv, (ast.Tuple, ast.List, ast.Set)):
+                return gv
+        return None
+
     for n in walk_body(fn):
-        if isinstance(n, ast.For) and isinstance(n.target, ast.Name) and isinstance(n.iter, (ast.Tuple, ast.List, ast.Set)):
-            vals = {e.value for e in n.iter.elts if isinstance(e, ast.Constant) and isinstance(e.value, str)}
-            if len(vals) == len(n.iter.elts):
+        disp = table_display(n.iter) if isinstance(n, ast.For) and isinstance(n.target, ast.Name) else None
+        if disp is not None:
+            vals = {e.value for e in disp.elts if isinstance(e, ast.Constant) and isinstance(e.value, str)}
+            if len(vals) == len(disp.elts):
                 loop_vars.setdefault(n.target.id, set()).update(vals)
         if isinstance(n, ast.Assign) and len(n.targets) == 1 and isinstance(n.targets[0], ast.Name):
             v = n.value
